@@ -28,6 +28,7 @@ EXPLANATION = (
     "varint constants agree (mask = 2^shift - 1, continuation = 2^shift). Decides the shape conditions without which "
     "reassembly cannot be lossless; equality of delivered and sent sequences for all byte streams is not decided."
     ' Added in the build: reader layout (the type, length and payload handed over are bound only by the matching reads, in wire order) and, for reads after the framing marker, no real value is a reason to give up.'
+    ' Also: type and payload handed over were bound in the same loop iteration; guards on later reads that cannot be folded are rejected.'
 )
 ASSUMPTIONS = ["bytes slicing/concatenation semantics", "the receive callback runs to completion (M1)"]
 
